@@ -221,7 +221,12 @@ pub fn c11(seed: u64, budget: usize) -> Report {
                 for (name, f) in convs.iter() {
                     let starts = [[r.unit(), r.unit(), r.unit()], { let v = r.unit(); [v, v, v] }, [0.0, 0.0, 0.0], [1.0, 0.0, 0.0], { let v = r.unit(); [v, v, r.unit()] }];
                     let mut seq: Vec<[f32; 3]> = vec![];
-                    for st in starts { let mut cur = st; for _ in 0..4 { seq.push(cur); let nx = f(vec![cur], 1)[0]; if !nx.iter().all(|c| c.is_finite()) { break; } cur = nx; } seq.push(st); }
+                    for st in starts { let mut cur = st; for _ in 0..4 { seq.push(cur); let nx = f(vec![cur], 1)[0]; if !nx.iter().all(|c| c.is_finite()) { break; } cur = nx; } seq.push(st);
+                        // near-equal neighbours: the same pixel with one channel moved by one ulp, by 1e-7, and with the sign of a zero flipped
+                        // (a conversion that reuses the previous result for "equal" pixels must compare bits, not a tolerance)
+                        let ulp = |v: f32, up: bool| if v == 0.0 { if up { f32::from_bits(1) } else { -0.0 } } else { f32::from_bits(if up == (v > 0.0) { v.to_bits() + 1 } else { v.to_bits() - 1 }) };
+                        let k = r.below(3) as usize; let mut a = st; a[k] = ulp(st[k], true); seq.push(a); let mut b = st; b[k] = ulp(st[k], false); seq.push(b);
+                        let mut c = st; c[(k + 1) % 3] += 1.0e-7; seq.push(c); seq.push(st); let mut d = st; d[(k + 2) % 3] -= 6.0e-8; seq.push(d); }
                     let whole = f(seq.clone(), seq.len());
                     for (i, q) in seq.iter().enumerate() { rep.evaluated += 1;
                         let e = f(vec![*q], 1);
@@ -368,6 +373,34 @@ pub fn c14(_seed: u64) -> Report {
             } }
         } } }
     }
+    // ... and the same for subsampled layouts, on images whose chroma varies inside every block (a chroma siting or a filter
+    // chosen from the transfer / primaries tag shows only there): every plane sample of RGB->YUV and every pixel of YUV->RGB
+    // is bit-identical under every transfer and primaries tag
+    {
+        let mut r = Rng::new(23);
+        let (w, h) = (8usize, 6usize);
+        let samples = |y: &Yuv<u8>| -> Vec<u16> { y.data().iter().flat_map(|pl| (0..pl.cfg.height).flat_map(move |yy| (0..pl.cfg.width).map(move |xx| u16::cast_from(pl.p(xx, yy))))).collect() };
+        for m in STD7 { for (ssx, ssy) in [(1u8, 0u8), (1, 1), (0, 1), (2, 0)] { for full in [false, true] {
+            let img: Vec<[f32; 3]> = (0..w * h).map(|_| [r.unit(), r.unit(), r.unit()]).collect();
+            let mk = |t: TransferCharacteristic, p: ColorPrimaries| cfg_of(8, ssx, ssy, full, mc_of(m).unwrap(), t, p);
+            let frame = |c: YuvConfig, r: &mut Rng| -> Yuv<u8> { let mut f: Frame<u8> = Frame { planes: [Plane::new(w, h, 0, 0, 0, 0), Plane::new(w >> ssx, h >> ssy, ssx as usize, ssy as usize, 0, 0), Plane::new(w >> ssx, h >> ssy, ssx as usize, ssy as usize, 0, 0)] };
+                for pl in f.planes.iter_mut() { let (pw, ph, st) = (pl.cfg.width, pl.cfg.height, pl.cfg.stride); let o = pl.data_origin_mut(); for yy in 0..ph { for xx in 0..pw { o[yy * st + xx] = r.below(256) as u8; } } }
+                Yuv::<u8>::new(f, c).unwrap() };
+            let seed_state = r.next();
+            let base_enc = samples(&Yuv::<u8>::try_from((&Rgb::new(img.clone(), w, h, TransferCharacteristic::BT1886, ColorPrimaries::BT709).unwrap(), mk(TransferCharacteristic::BT1886, ColorPrimaries::BT709))).unwrap());
+            let base_dec = bits(Rgb::try_from(&frame(mk(TransferCharacteristic::BT1886, ColorPrimaries::BT709), &mut Rng::new(seed_state))).unwrap().data());
+            for t in TCS.iter().filter(|x| x.0 != "Unspecified") { for p in CPS.iter().filter(|x| x.0 != "Unspecified") {
+                rep.evaluated += 2;
+                let desc = format!("independence {} ss=({},{}) full={} transfer={} primaries={}", m, ssx, ssy, full, t.0, p.0);
+                match Yuv::<u8>::try_from((&Rgb::new(img.clone(), w, h, t.1, p.1).unwrap(), mk(t.1, p.1))) {
+                    Ok(y) => if samples(&y) != base_enc { rep.fail("RGB->YUV (subsampled) with a standard matrix depends on transfer/primaries", desc.clone(), "".into(), "".into()); },
+                    Err(e) => rep.fail("RGB->YUV with a standard matrix rejected because of transfer/primaries", desc.clone(), format!("{:?}", e), "ok".into()) }
+                match Rgb::try_from(&frame(mk(t.1, p.1), &mut Rng::new(seed_state))) {
+                    Ok(o) => if bits(o.data()) != base_dec { rep.fail("YUV->RGB (subsampled) with a standard matrix depends on transfer/primaries", desc.clone(), "".into(), "".into()); },
+                    Err(e) => rep.fail("YUV->RGB with a standard matrix rejected because of transfer/primaries", desc.clone(), format!("{:?}", e), "ok".into()) }
+            } }
+        } } }
+    }
     // subsampled configurations: every conversion has the same outcome (success / the same error) as with the 4:4:4 layout of
     // the same triple, and never panics
     {
@@ -492,10 +525,10 @@ pub fn c16_rest(seed: u64, budget: usize) -> Report {
     let greys: Vec<f32> = (0..budget.min(1 << 20)).map(|i| if budget >= 1 << 20 { i as f32 / ((1 << 20) - 1) as f32 } else { r.unit() }).chain([0.0, 1.0]).collect();
     let px: Vec<[f32; 3]> = greys.iter().map(|v| [*v, *v, *v]).collect();
     for pn in CP11 { let p = cp_of(pn).unwrap(); for to709 in [true, false] {
-        let o = if to709 { LinearRgb::try_from(Rgb::new(px.clone(), px.len(), 1, TransferCharacteristic::Linear, p).unwrap()).unwrap().into_data() } else { Rgb::try_from((LinearRgb::new(px.clone(), px.len(), 1).unwrap(), TransferCharacteristic::Linear, p)).unwrap().into_data() };
+        let o = if to709 { piecewise(&px, &|d, w, h| LinearRgb::try_from(Rgb::new(d, w, h, TransferCharacteristic::Linear, p).unwrap()).unwrap().into_data()) } else { piecewise(&px, &|d, w, h| Rgb::try_from((LinearRgb::new(d, w, h).unwrap(), TransferCharacteristic::Linear, p)).unwrap().into_data()) };
         for (q, v) in o.iter().zip(greys.iter()) { rep.evaluated += 1; let sp = (q[0].max(q[1]).max(q[2]) - q[0].min(q[1]).min(q[2])) as f64; rep.note("primaries grey spread", sp, 1e-5);
             if !(sp <= 1e-5) { rep.fail("primaries conversion does not map grey to grey", format!("prim {} {} {} {} {}", if to709 { "to709" } else { "from709" }, pn, hx(*v), hx(*v), hx(*v)), format!("{:?}", q), "grey".into()); } } } }
-    let x = Xyb::from(LinearRgb::new(px.clone(), px.len(), 1).unwrap()); let hs = Hsl::from(LinearRgb::new(px.clone(), px.len(), 1).unwrap());
+    let x = Px(piecewise(&px, &|d, w, h| Xyb::from(LinearRgb::new(d, w, h).unwrap()).into_data())); let hs = Px(piecewise(&px, &|d, w, h| Hsl::from(LinearRgb::new(d, w, h).unwrap()).into_data()));
     for i in 0..px.len() { rep.evaluated += 2; let q = x.data()[i]; let v = greys[i];
         rep.note("XYB grey |X|", q[0].abs() as f64, 1e-6); rep.note("XYB grey |Y-B|", (q[1] - q[2]).abs() as f64, 1e-6);
         if !(q[0].abs() <= 1e-6 && (q[1] - q[2]).abs() <= 1e-6) { rep.fail("linear grey does not map to X=0, Y=B", format!("xyb {} {} {}", hx(v), hx(v), hx(v)), format!("{:?}", q), "".into()); }
